@@ -302,10 +302,10 @@ theorem tree_leaves_live {F : Forest H} {R : Nat} {t : CTree H} (ht : treeOf F R
   have h3 := List.mem_of_mem_drop (List.mem_of_mem_take h2)
   exact Forest.mem_liveLeaves.2 h3
 
-/-- under collision-freeness and distinct, well-formed live leaves, a non-empty tree's root
-hash differs from the root hash of every other tree -/
-theorem roots_distinct (cr : CR H) (F : Forest H) (hn : F.numLeaves < 2 ^ 64)
-    (hnd : F.liveLeaves.Nodup) (hleaf : ∀ x ∈ F.liveLeaves, ∀ a b : H, x ≠ ph a b)
+/-- if no non-zero hash sits at two places of `F` (`NodesDistinct F`: finite, decidable, no
+assumption on the hash function), a non-empty tree's root hash differs from the root hash of
+every other tree -/
+theorem roots_distinct_nd (F : Forest H) (hn : F.numLeaves < 2 ^ 64) (hd : NodesDistinct F)
     {R R' : Nat} (hb : F.numLeaves.testBit R = true) (hb' : F.numLeaves.testBit R' = true)
     (hne : R' ≠ R) (hz : treeRoot F R ≠ zero) : treeRoot F R' ≠ treeRoot F R := by
   intro he
@@ -323,18 +323,25 @@ theorem roots_distinct (cr : CR H) (F : Forest H) (hn : F.numLeaves < 2 ^ 64)
   have h1 := mem_nodes.2 ⟨R, ⟨hb, hmem R hb⟩, hx⟩
   have h2 := mem_nodes.2 ⟨R', ⟨hb', hmem R' hb'⟩, hx'⟩
   rw [he] at h2
-  have := (nodes_hash_unique cr F hn hnd hleaf _ _ _ _ _ hz h1 h2).1
+  have := (hd.unique hz h1 h2).1
   simp only [rootPos, Prod.mk.injEq] at this
   exact hne this.1.symm
+
+/-- under collision-freeness and distinct, well-formed live leaves, a non-empty tree's root
+hash differs from the root hash of every other tree -/
+theorem roots_distinct (cr : CR H) (F : Forest H) (hn : F.numLeaves < 2 ^ 64)
+    (hnd : F.liveLeaves.Nodup) (hleaf : ∀ x ∈ F.liveLeaves, ∀ a b : H, x ≠ ph a b)
+    {R R' : Nat} (hb : F.numLeaves.testBit R = true) (hb' : F.numLeaves.testBit R' = true)
+    (hne : R' ≠ R) (hz : treeRoot F R ≠ zero) : treeRoot F R' ≠ treeRoot F R :=
+  roots_distinct_nd F hn (nodesDistinct_of_CR cr F hn hnd hleaf) hb hb' hne hz
 
 /-- **`GetLeafPosition` through `calculatePosition`.**  For a live leaf `h` there are a tree
 `t` of the forest and a child path in it ending at the leaf node `h`, and `calculatePosition`
 run on what the climb from that node observes returns the position the abstract look-up
 (`posOf`) reports. -/
-theorem getLeafPosition_calculatePosition (cr : CR H) (F : Forest H) (hn : F.numLeaves < 2 ^ 63)
-    (hnd : F.liveLeaves.Nodup)
-    (hleaf : ∀ x ∈ F.liveLeaves, x ≠ (zero : H) ∧ ∀ a b : H, x ≠ ph a b)
-    {h : H} (hl : h ∈ F.liveLeaves) :
+theorem getLeafPosition_calculatePosition_nd (nz : NZ H) (F : Forest H) (hn : F.numLeaves < 2 ^ 63)
+    (hnd : F.liveLeaves.Nodup) (hleaf : ∀ x ∈ F.liveLeaves, x ≠ (zero : H))
+    (hd : NodesDistinct F) {h : H} (hl : h ∈ F.liveLeaves) :
     ∃ R t path, R ∈ treeRows F.numLeaves ∧ treeOf F R = some t ∧
       childPath t path = some (.leaf h) ∧
       calculatePosition F (nieceFlags path) t.hash = (pollardGetLeafPosition F h).1 ∧
@@ -363,9 +370,9 @@ theorem getLeafPosition_calculatePosition (cr : CR H) (F : Forest H) (hn : F.num
       · have hroot := treeRoot_eq_hash ht
         have hz : treeRoot F R ≠ zero := by
           rw [hroot]
-          exact CTree.hash_ne_zero cr.nonzero t (fun x hx => (hleaf x (tree_leaves_live ht x hx)).1)
+          exact CTree.hash_ne_zero nz.nonzero t (fun x hx => hleaf x (tree_leaves_live ht x hx))
         have := calculatePosition_enc F hn hb u1 u2 (fun R' hlt hb' =>
-          roots_distinct cr F hn64 hnd (fun x hx => (hleaf x hx).2) hb hb' (by omega) hz)
+          roots_distinct_nd F hn64 hd hb hb' (by omega) hz)
         rw [hroot] at this
         rw [this]
         unfold pollardGetLeafPosition
@@ -373,6 +380,18 @@ theorem getLeafPosition_calculatePosition (cr : CR H) (F : Forest H) (hn : F.num
         rfl
       · unfold pollardGetLeafPosition
         rw [hpos]
+
+/-- the same under collision-freeness `CR` (which yields `NodesDistinct F`) -/
+theorem getLeafPosition_calculatePosition (cr : CR H) (F : Forest H) (hn : F.numLeaves < 2 ^ 63)
+    (hnd : F.liveLeaves.Nodup)
+    (hleaf : ∀ x ∈ F.liveLeaves, x ≠ (zero : H) ∧ ∀ a b : H, x ≠ ph a b)
+    {h : H} (hl : h ∈ F.liveLeaves) :
+    ∃ R t path, R ∈ treeRows F.numLeaves ∧ treeOf F R = some t ∧
+      childPath t path = some (.leaf h) ∧
+      calculatePosition F (nieceFlags path) t.hash = (pollardGetLeafPosition F h).1 ∧
+      (pollardGetLeafPosition F h).2 = true :=
+  getLeafPosition_calculatePosition_nd cr.toNZ F hn hnd (fun x hx => (hleaf x hx).1)
+    (nodesDistinct_of_CR cr F (by omega) hnd (fun x hx => (hleaf x hx).2)) hl
 
 end
 
